@@ -313,11 +313,36 @@ def run(tier, seed):
                        "in_single/in_double never both set (one three-valued field in the model; checked by correspondence)"]
     extracted = phase_extract(res)
     C.phase_proofs(res, PROP, THEOREMS)
+    private = [use_private_copy("DRIVER_BIN", "lake", "driver")]
+    try:
+        return run_phases(res, tier, seed, extracted, private)
+    finally:
+        for f in private:
+            if f and os.path.exists(f):
+                os.unlink(f)
+
+
+def use_private_copy(attr, lock, stem):
+    """Other checks rebuild the shared driver / harness binaries while this one runs (the file is
+    replaced); work on a copy taken under the builder's lock."""
+    import shutil
+    dst = os.path.join(C.BUILD, f"{stem}-c18-{os.getpid()}")
+    try:
+        with C.Lock(lock):
+            shutil.copy2(getattr(C, attr), dst)
+        setattr(C, attr, dst)
+        return dst
+    except OSError:
+        return None
+
+
+def run_phases(res, tier, seed, extracted, private):
     ok, out = C.build_harness()
     if not ok:
         res.obligation("build harness against the working tree", False, "build")
         res.broken_tie("harness build", out[-3000:])
         return res.finish()
+    private.append(use_private_copy("HARNESS_BIN", "cargo-harness" + getattr(C, "_ALT", ""), "harness"))
     if tier == "quick":
         bad, newfail = C.phase_suite(res, "c18", seed, 30000, CORPUS)
     else:
